@@ -2,9 +2,9 @@ from ..streams import meshgen
 from ..oracles import c14
 
 MODELS = ["MeshGen"]
-STREAMS = [meshgen.stream_rect, meshgen.stream_sections]
+STREAMS = [meshgen.stream_rect, meshgen.stream_sections, meshgen.stream_sections_asymmetric]
 ORACLES = [c14.oracle_generate_mesh, c14.oracle_sections]
 UNPROVED = ["CRM / uCRM planforms are table data interpolated by numpy: their ordering, symmetry, half/full and offset properties are checked per instance by the oracle, not proved",
             "cosine-blended spacing is proved monotone only through the rectangular model's hypothesis that the blended spanwise stations are strictly increasing (a convex combination of two increasing station lists); the station lists themselves are compared with the code by the stream",
             "unify_mesh / GeomMultiUnification reproduce the stitched surface: oracle only"]
-ASSUMPTIONS = ["one recorded finding (F08): the asymmetric multi-section branch does not join sections right of the root"]
+ASSUMPTIONS = ["finding F08 (the asymmetric multi-section branch did not join sections right of the root) is fixed in /repo (6265a26); the repaired branch is modelled, proved to join and executed against the code"]
